@@ -23,20 +23,26 @@ ABSTRACT = {}
 STR_VARS = set()
 # When set, `return <expr>` of the block is translated as `@ret = "<source text of expr>"` (a routing decision).
 RETURN_TAGS = False
+# Abstracted calls whose arguments are recorded: exact source text of the call → the source texts of the argument
+# expressions (each must occur inside the call).  The simple statement that contains the call is preceded by
+# `<var>.arg<i> = <argument>` (`<var>` = the variable the call is abstracted to): the values the source passes, at the
+# point where it passes them.
+CALL_ARGS = {}
 
 
 class abstracting(object):
-    def __init__(self, table, str_vars=(), return_tags=False):
+    def __init__(self, table, str_vars=(), return_tags=False, call_args=None):
         self.table, self.str_vars, self.return_tags = table, set(str_vars), return_tags
+        self.call_args = call_args or {}
 
     def __enter__(self):
-        global ABSTRACT, STR_VARS, RETURN_TAGS
-        self.old = (ABSTRACT, STR_VARS, RETURN_TAGS)
-        ABSTRACT, STR_VARS, RETURN_TAGS = self.table, self.str_vars, self.return_tags
+        global ABSTRACT, STR_VARS, RETURN_TAGS, CALL_ARGS
+        self.old = (ABSTRACT, STR_VARS, RETURN_TAGS, CALL_ARGS)
+        ABSTRACT, STR_VARS, RETURN_TAGS, CALL_ARGS = self.table, self.str_vars, self.return_tags, self.call_args
 
     def __exit__(self, *a):
-        global ABSTRACT, STR_VARS, RETURN_TAGS
-        ABSTRACT, STR_VARS, RETURN_TAGS = self.old
+        global ABSTRACT, STR_VARS, RETURN_TAGS, CALL_ARGS
+        ABSTRACT, STR_VARS, RETURN_TAGS, CALL_ARGS = self.old
 
 
 def codes(text):
@@ -81,6 +87,8 @@ def expr(e):
         if isinstance(e.value, ast.Name) and e.value.id == "sys" and e.attr == "byteorder":
             return "(.var %s)" % lstr("sys.byteorder")      # the host byte order is an input of the block
         return "(.attr %s %s)" % (expr(e.value), lstr(e.attr))
+    if isinstance(e, ast.BinOp) and isinstance(e.op, ast.Add) and is_tuple_call(e.left) and is_tuple_call(e.right):
+        return "(.tconcat %s %s)" % (expr(e.left), expr(e.right))             # tuple(a) + tuple(b)
     if isinstance(e, ast.BinOp):
         if is_strconst(e.left) and isinstance(e.op, ast.Mod):
             raise Untranslatable("string formatting with %")
@@ -118,6 +126,8 @@ def expr(e):
             return "(.inInts %s [%s])" % (expr(e.left), ", ".join("(%d)" % x.value for x in r.elts))
         if isinstance(op, ast.In) and is_strconst(e.left) and e.left.value:
             return "(.inStr %s %s)" % (expr(e.left), expr(r))                  # "." in text
+        if isinstance(op, ast.NotIn) and is_strconst(e.left) and e.left.value:
+            return "(.not_ (.inStr %s %s))" % (expr(e.left), expr(r))          # "?" not in text
         name = {ast.Lt: "lt", ast.LtE: "le", ast.Gt: "gt", ast.GtE: "ge", ast.Eq: "eq", ast.NotEq: "ne"}.get(type(op))
         if not name:
             raise Untranslatable("comparison %s" % type(op).__name__)
@@ -142,6 +152,33 @@ def expr(e):
                 return "(.mkSlice .none %s .none)" % expr(a[0])
             parts = [expr(x) for x in a] + [".none"] * (3 - len(a))
             return "(.mkSlice %s)" % " ".join(parts)
+        if f == "isinstance" and len(a) == 2 and isinstance(a[1], ast.Tuple) and len(a[1].elts) >= 2 \
+                and all(isinstance(c, ast.Name) and c.id in ("int", "slice", "float", "str", "list") for c in a[1].elts):
+            # isinstance(x, (A, B)) is isinstance(x, A) or isinstance(x, B)
+            tests = [expr(ast.Call(func=e.func, args=[a[0], c], keywords=[])) for c in a[1].elts]
+            out = tests[-1]
+            for t in reversed(tests[:-1]):
+                out = "(.or_ %s %s)" % (t, out)
+            return out
+        if f == "isinstance" and len(a) == 2 and isinstance(a[1], ast.Name) and a[1].id == "list":
+            return "(.isList %s)" % expr(a[0])
+        if f == "iter" and len(a) == 1:
+            return "(.iterOf %s)" % expr(a[0])
+        if f == "filter" and len(a) == 2:
+            return "(.pyFilter %s %s)" % (expr(a[0]), expr(a[1]))
+        if f == "map" and len(a) == 2:
+            return "(.pyMap %s %s)" % (expr(a[0]), expr(a[1]))
+        if f == "str" and len(a) == 1:
+            return "(.fmtArg %s)" % expr(a[0])                                  # str(text or int)
+        if f == "tuple" and len(a) == 1 and isinstance(a[0], ast.GeneratorExp):
+            g = a[0]
+            if len(g.generators) != 1 or g.generators[0].ifs or g.generators[0].is_async \
+                    or not isinstance(g.generators[0].target, ast.Name) \
+                    or any(isinstance(n, ast.Name) and n.id == g.generators[0].target.id for n in ast.walk(g.elt)):
+                raise Untranslatable("generator expression other than `c for _ in e` with `c` independent of `_`")
+            return "(.repeatFor %s %s)" % (expr(g.elt), expr(g.generators[0].iter))
+        if f == "tuple" and len(a) == 1:
+            return "(.tupleOf %s)" % expr(a[0])
         if f == "isinstance" and len(a) == 2 and isinstance(a[1], ast.Name) and a[1].id == "int":
             return "(.isInt %s)" % expr(a[0])
         if f == "isinstance" and len(a) == 2 and isinstance(a[1], ast.Name) and a[1].id == "slice":
@@ -172,6 +209,11 @@ def expr(e):
     if isinstance(e, ast.Call) and isinstance(e.func, ast.Attribute) and e.func.attr == "format" \
             and is_strconst(e.func.value):
         return format_call(e)
+    if isinstance(e, ast.Call) and ast.unparse(e.func) == "itertools.islice" and len(e.args) == 4 and not e.keywords:
+        return "(.pyIslice %s)" % " ".join(expr(x) for x in e.args)
+    if isinstance(e, ast.Call) and isinstance(e.func, ast.Attribute) and e.func.attr == "index" \
+            and len(e.args) == 1 and not e.keywords:
+        return "(.indexOf %s %s)" % (expr(e.func.value), expr(e.args[0]))      # keys.index(k)
     if isinstance(e, ast.Call) and isinstance(e.func, ast.Attribute) and e.func.attr == "startswith" \
             and len(e.args) == 1 and not e.keywords:
         return "(.startswith %s %s)" % (expr(e.func.value), expr(e.args[0]))
@@ -200,6 +242,10 @@ def expr(e):
     if isinstance(e, ast.Call) and ast.unparse(e.func) == "os.path.join" and len(e.args) == 2 and not e.keywords \
             and isinstance(e.args[1], ast.Constant) and e.args[1].value == "":
         return "(.joinEmpty %s)" % expr(e.args[0])
+    if isinstance(e, ast.Subscript) and is_intconst(e.slice) and e.slice.value == 0 \
+            and isinstance(e.value, ast.Call) and isinstance(e.value.func, ast.Attribute) \
+            and e.value.func.attr == "split" and len(e.value.args) == 1 and not e.value.keywords:
+        return "(.splitHead %s %s)" % (expr(e.value.func.value), expr(e.value.args[0]))    # x.split(sep)[0]
     if isinstance(e, ast.Subscript) and isinstance(e.slice, ast.Slice):
         sl = e.slice
         if sl.step is None and sl.lower is None and sl.upper is not None and is_intconst(sl.upper) \
@@ -233,6 +279,11 @@ def expr(e):
     if isinstance(e, ast.Subscript) and isinstance(e.value, ast.Name) and isinstance(e.slice, (ast.Name, ast.Call)):
         return "(.subscr %s %s)" % (expr(e.value), expr(e.slice))              # d[key]
     raise Untranslatable(ast.dump(e)[:80])
+
+
+def is_tuple_call(e):
+    return isinstance(e, ast.Call) and isinstance(e.func, ast.Name) and e.func.id == "tuple" and len(e.args) == 1 \
+        and not e.keywords
 
 
 def format_call(e):
@@ -388,11 +439,33 @@ def inline_call(s):
     return text, s2
 
 
+def recorded_args(s):
+    """`<var>.arg<i> = <argument>` for every abstracted call of the simple statement `s` listed in CALL_ARGS"""
+    if not CALL_ARGS or not isinstance(s, (ast.Expr, ast.Assign, ast.AugAssign, ast.Return)):
+        return []
+    out = []
+    for n in ast.walk(s):
+        if isinstance(n, ast.Call) and ast.unparse(n) in CALL_ARGS:
+            text = ast.unparse(n)
+            if text not in ABSTRACT:
+                raise Untranslatable("recorded call %s is not abstracted" % text)
+            inside = set(ast.unparse(x) for x in ast.walk(n) if isinstance(x, ast.expr) and x is not n)
+            for i, a in enumerate(CALL_ARGS[text]):
+                if a not in inside:
+                    raise Untranslatable("%s is not an argument expression of %s" % (a, text))
+                out.append("(.assign %s %s)" % (lstr("%s.arg%d" % (ABSTRACT[text], i)), expr(ast.parse(a, mode="eval").body)))
+    return out
+
+
 def stmt(s, sink, tail=False):
+    rec = recorded_args(s)
     prelude, s = inline_call(s)
+    t = stmt1(s, sink, tail)
     if prelude is not None:
-        return "(.seq %s %s)" % (prelude, stmt1(s, sink, tail))
-    return stmt1(s, sink, tail)
+        t = "(.seq %s %s)" % (prelude, t)
+    for r in reversed(rec):
+        t = "(.seq %s %s)" % (r, t)
+    return t
 
 
 def stmt1(s, sink, tail=False):
@@ -412,6 +485,37 @@ def stmt1(s, sink, tail=False):
         return "(.assign %s %s)" % (lstr("@ret"), expr(s.value))
     if isinstance(s, ast.Assign) and len(s.targets) == 1 and isinstance(s.targets[0], ast.Name):
         return "(.assign %s %s)" % (lstr(s.targets[0].id), expr(s.value))
+    if isinstance(s, ast.Assign) and len(s.targets) == 1 and isinstance(s.targets[0], ast.Attribute) \
+            and ABSTRACT.get(ast.unparse(s.targets[0])) == ast.unparse(s.targets[0]):
+        return "(.assign %s %s)" % (lstr(ast.unparse(s.targets[0])), expr(s.value))       # out.level = e (a field as a variable)
+    if isinstance(s, ast.AugAssign) and isinstance(s.target, ast.Attribute) and isinstance(s.op, ast.Add) \
+            and ABSTRACT.get(ast.unparse(s.target)) == ast.unparse(s.target) and not isinstance(s.value, ast.Tuple):
+        return "(.augAdd %s %s)" % (lstr(ast.unparse(s.target)), expr(s.value))            # out.level += e
+    if isinstance(s, ast.Assign) and len(s.targets) == 1 and isinstance(s.targets[0], ast.Tuple) \
+            and len(s.targets[0].elts) == 2 and all(isinstance(t, ast.Name) for t in s.targets[0].elts) \
+            and ABSTRACT.get(ast.unparse(s.value), "").startswith("@"):
+        # a, b = <abstracted call>: the two results are the inputs `<var>.0`, `<var>.1`
+        v = ABSTRACT[ast.unparse(s.value)]
+        return "(.seq (.assign %s (.var %s)) (.assign %s (.var %s)))" % (
+            lstr(s.targets[0].elts[0].id), lstr(v + ".0"), lstr(s.targets[0].elts[1].id), lstr(v + ".1"))
+    if isinstance(s, ast.Expr) and isinstance(s.value, ast.Call) and isinstance(s.value.func, ast.Attribute) \
+            and s.value.func.attr == "append" and isinstance(s.value.func.value, ast.Attribute) \
+            and ABSTRACT.get(ast.unparse(s.value.func.value)) == ast.unparse(s.value.func.value) \
+            and len(s.value.args) == 1 and not s.value.keywords:
+        return "(.append %s %s)" % (lstr(ast.unparse(s.value.func.value)), expr(s.value.args[0]))   # out.imap.append(e)
+    if isinstance(s, ast.Expr) and isinstance(s.value, ast.Call) and isinstance(s.value.func, ast.Attribute) \
+            and s.value.func.attr == "insert" and len(s.value.args) == 2 and not s.value.keywords \
+            and is_intconst(s.value.args[0]) and s.value.args[0].value == 0 \
+            and (isinstance(s.value.func.value, ast.Name)
+                 or ABSTRACT.get(ast.unparse(s.value.func.value)) == ast.unparse(s.value.func.value)):
+        return "(.insertFront %s %s)" % (lstr(ast.unparse(s.value.func.value)), expr(s.value.args[1]))  # x.insert(0, e)
+    if isinstance(s, ast.Try):
+        if s.orelse or s.finalbody or len(s.handlers) != 1 or len(s.body) != 1 \
+                or not isinstance(s.body[0], ast.Assign) or not isinstance(s.handlers[0].type, ast.Name) \
+                or s.handlers[0].name is not None:
+            raise Untranslatable("try statement other than `try: <one assignment> except C: …`")
+        return "(.tryExcept %s %s %s)" % (stmt(s.body[0], sink, False), lstr(s.handlers[0].type.id),
+                                          stmts(s.handlers[0].body, sink, tail))
     if isinstance(s, ast.AugAssign) and isinstance(s.target, ast.Name) and isinstance(s.op, ast.Add) \
             and isinstance(s.value, ast.Tuple) and len(s.value.elts) == 1:
         return "(.append %s %s)" % (lstr(s.target.id), expr(s.value.elts[0]))          # t += (e,)
@@ -1021,7 +1125,135 @@ def generate_hlib(repo):
     return "\n".join(parts)
 
 
-GENERATORS = [("DdsSrc.lean", generate_dds), ("DasSrc.lean", generate_das), ("HlibSrc.lean", generate_hlib), ("ProjSrc.lean", generate_proj), ("SsfSrc.lean", generate_ssf), ("DmrSrc.lean", generate_dmr), ("LibSrc.lean", generate_lib), ("SliceSrc.lean", generate), ("DapSrc.lean", generate_dap), ("DodsSrc.lean", generate_dods),
+
+def generate_iterdata(repo):
+    """handlers/lib.py `IterData.__getitem__` / `IterData.__iter__` (C17's `IterData.getitem` / `IterData.iter`)"""
+    hlib = parse_src(repo, "handlers", "lib.py")
+    ITEM = "deep_map(operator.itemgetter(col), out.level)"
+    PROJ = "deep_map(lambda row: tuple((row[i] for i in cols)), out.level + 1)"
+    BUILD = "build_filter(key, self.root)"
+    fields = ["out.level", "out.template", "out.imap", "out.ifilter", "out.islice", "out.template._visible_keys",
+              "self.root", "self.stream", "self.ifilter", "self.imap", "self.islice"]
+    table = dict((f, f) for f in fields)
+    table.update({"list(self.template.keys())": "@visible_keys", "out.template[key]": "@child_template",
+                  "[list(self.template.keys()).index(k) for k in key]": "@cols",
+                  "isinstance(key, ConstraintExpression)": "@is_ce",
+                  ITEM: "@item_map", PROJ: "@proj_map", BUILD: "@build_filter"})
+    args = {ITEM: ["col", "out.level"], PROJ: ["cols", "out.level + 1"], BUILD: ["key", "self.root"]}
+
+    def getitem():
+        fn = find_method(hlib, "IterData", "__getitem__")
+        body = drop_statements(body_of(fn), ["out = copy.copy(self)"])
+        with abstracting(table, call_args=args):
+            return stmts(body, None, tail=True)
+
+    def iterate():
+        fn = find_method(hlib, "IterData", "__iter__")
+        with abstracting(table):
+            return stmts(body_of(fn), None, tail=True)
+
+    parts = [HEADER,
+             block("src_iterdata_getitem", "handlers/lib.py IterData.__getitem__ after `out = copy.copy(self)` (set aside: the "
+                   "fields `out.level`, `out.template`, `out.imap`, `out.ifilter`, `out.islice` are variables that hold the "
+                   "copies); inputs: `key`, `@visible_keys` for `list(self.template.keys())`, `@child_template` for "
+                   "`out.template[key]`, `@cols` for the comprehension `[list(self.template.keys()).index(k) for k in key]`, "
+                   "`@is_ce` for `isinstance(key, ConstraintExpression)`, the closures `@item_map` / `@proj_map` for the two "
+                   "`deep_map(…)` calls and `@build_filter.0` / `@build_filter.1` for the pair `build_filter(key, self.root)` "
+                   "returns; the arguments the source passes to these three calls are recorded as `<var>.arg<i>`", getitem),
+             block("src_iterdata_iter", "handlers/lib.py IterData.__iter__: the whole body; `iter`, `filter`, `map`, "
+                   "`itertools.islice` build a lazy pipeline (MiniPy `pipe`: the stages in the order they are wrapped)", iterate),
+             "end Pydap.Gen\n"]
+    return "\n".join(parts)
+
+
+
+def comprehension_elt(fn, name, loop_var):
+    """the element expression of the one list comprehension `[<elt> for <loop_var> in …]` in the assignment `name = …`"""
+    found = [n for n in ast.walk(fn) if isinstance(n, ast.Assign) and len(n.targets) == 1
+             and isinstance(n.targets[0], ast.Name) and n.targets[0].id == name]
+    if len(found) != 1:
+        raise Untranslatable("expected exactly one assignment `%s = …`" % name)
+    comps = [n for n in ast.walk(found[0].value) if isinstance(n, ast.ListComp)]
+    if len(comps) != 1 or len(comps[0].generators) != 1 or comps[0].generators[0].ifs \
+            or not isinstance(comps[0].generators[0].target, ast.Name) or comps[0].generators[0].target.id != loop_var:
+        raise Untranslatable("expected one comprehension `[… for %s in …]` in `%s = …`" % (loop_var, name))
+    return comps[0].elt
+
+
+def generate_client(repo):
+    """client.py `consolidate_metadata`: the texts it builds (C18's `Cons.declText`, `dimReq`, `dmrReq`, `baseUrlText`)"""
+    cl = parse_src(repo, "client.py")
+    SIZE = "results[0].dimensions[dim]"
+
+    def fn():
+        return find_function(cl, "consolidate_metadata")
+
+    def elt(name, var, out, table, strs):
+        def go():
+            with abstracting(table, str_vars=strs):
+                return "(.assign %s %s)" % (lstr(out), expr(comprehension_elt(fn(), name, var)))
+        return go
+
+    def base_url():
+        with abstracting({"URLs[0]": "@URL0"}, str_vars={"URLs[0]"}):
+            return assignments(fn(), ["base_url"])
+
+    parts = [HEADER,
+             block("src_consolidate_dim_ce", "client.py consolidate_metadata: the element of the comprehension in `dim_ces = set([…])`; "
+                   "`dim` is an input, `@size` stands for `results[0].dimensions[dim]`",
+                   elt("dim_ces", "dim", "@elt", {SIZE: "@size"}, {"dim"})),
+             block("src_consolidate_new_url", "client.py consolidate_metadata: the element of the comprehension in `new_urls = […]`; "
+                   "`base_url`, `dim` are inputs, `@size` stands for `results[0].dimensions[dim]`",
+                   elt("new_urls", "dim", "@elt", {SIZE: "@size"}, {"dim", "base_url"})),
+             block("src_consolidate_http_url", "client.py consolidate_metadata: the element of `URLs = [\"http\" + urls[i][4:] …]`; "
+                   "`@url` stands for `urls[i]`", elt("URLs", "i", "@elt", {"urls[i]": "@url"}, {"urls[i]"})),
+             block("src_consolidate_dmr_url", "client.py consolidate_metadata: the element of `dmr_urls = [… for url in URLs]`",
+                   elt("dmr_urls", "url", "@elt", {}, {"url"})),
+             block("src_consolidate_base_url", "client.py consolidate_metadata: `base_url = URLs[0].split(\"?\")[0]`; `@URL0` "
+                   "stands for `URLs[0]`", base_url),
+             "end Pydap.Gen\n"]
+    return "\n".join(parts)
+
+
+
+def generate_proxy(repo):
+    """handlers/dap.py `pad_hyperslab` and the projection text of `BaseProxyDap2.__getitem__` (C02's `openSlice` / `requestText`)"""
+    dap = parse_src(repo, "handlers", "dap.py")
+    COMBINED = "combine_slices(self.slice, fix_slice(index, self.shape))"
+
+    def pad():
+        return stmts(body_of(find_function(dap, "pad_hyperslab")), None, tail=True)
+
+    def request():
+        fn = find_method(dap, "BaseProxyDap2", "__getitem__")
+        body = body_of(fn)
+        if ast.unparse(body[0]) != "index = " + COMBINED:
+            raise Untranslatable("expected `index = %s` first" % COMBINED)
+        calls = [n for n in ast.walk(body[2]) if isinstance(n, ast.Call) and ast.unparse(n.func) == "urlunparse"] \
+            if len(body) > 2 else []
+        if len(calls) != 1 or len(calls[0].args) != 1 or not isinstance(calls[0].args[0], ast.Tuple) \
+                or len(calls[0].args[0].elts) != 6:
+            raise Untranslatable("expected `url = urlunparse((six parts))…` as the third statement")
+        table = {COMBINED: "@combined", "self.id": "self.id", "hyperslab(index)": "@hyperslab",
+                 "_quote(query)": "@quoted_query"}
+        with abstracting(table, str_vars={"self.id", "hyperslab(index)", "_quote(query)"},
+                         call_args={"hyperslab(index)": ["index"]}):
+            q = ast.Assign(targets=[ast.Name(id="@query", ctx=ast.Store())], value=calls[0].args[0].elts[4])
+            return "(.seq %s %s)" % (stmt(body[0], None), stmt(q, None))
+
+    parts = [HEADER,
+             block("src_pad_hyperslab", "handlers/dap.py pad_hyperslab: the whole body; `index` (a tuple of slices) and `shape` are "
+                   "the inputs, `return e` is `@ret = e`", pad),
+             block("src_proxy_request", "handlers/dap.py BaseProxyDap2.__getitem__: `index = combine_slices(self.slice, "
+                   "fix_slice(index, self.shape))` (the call is the input `@combined`) followed by the query part handed to "
+                   "`urlunparse` (`@query = self.id + hyperslab(index) + \"&\" + _quote(query)`); `@hyperslab` stands for "
+                   "`hyperslab(index)` (its argument is recorded as `@hyperslab.arg0`), `@quoted_query` for `_quote(query)`",
+                   request),
+             "end Pydap.Gen\n"]
+    return "\n".join(parts)
+
+
+GENERATORS = [("ProxySrc.lean", generate_proxy), ("ClientSrc.lean", generate_client), ("IterDataSrc.lean", generate_iterdata), ("DdsSrc.lean", generate_dds), ("DasSrc.lean", generate_das), ("HlibSrc.lean", generate_hlib), ("ProjSrc.lean", generate_proj), ("SsfSrc.lean", generate_ssf), ("DmrSrc.lean", generate_dmr), ("LibSrc.lean", generate_lib), ("SliceSrc.lean", generate), ("DapSrc.lean", generate_dap), ("DodsSrc.lean", generate_dods),
               ("AppSrc.lean", generate_app), ("CeSrc.lean", generate_ce)]
 
 
